@@ -300,6 +300,11 @@ def run(ctx):
     ctx.pmap(worker, [(k, nw, ctx.seed, ctx.quick) for k in range(nw)])
     rounds = 1 if ctx.quick else 150
     ctx.pmap(random_worker, [(k, rounds, ctx.seed) for k in range(nw)])
+    # the three forms evaluated seconds apart in one run of the real binary (its real clock): still exactly one of them, and the
+    # same one, for the same file (lib/c15.py clock_worker)
+    import c15
+    ctx.pmap(c15.clock_worker, [(k, 1 if ctx.quick else 8, ctx.seed + 7919) for k in range(nw)])
+    ctx.require("clock_runs_in_which_the_age_crossed_the_boundary_during_the_pause", 1)
     ctx.require("random_rounds", nw)
     for key in ("family:-size", "family:-links", "family:-inum", "family:-uid", "family:-gid", "family:-mtime", "family:-amin",
                 "size_evaluations_needing_round_up", "monotonicity_pairs", "negative_age_evaluations_trichotomy_only"):
